@@ -24,6 +24,8 @@ type Oblig struct {
 	Trace  []string `json:"path,omitempty"`
 }
 
+var dumpObligs bool
+
 type RuleInfo struct {
 	ID     string `json:"id"`
 	Doc    string `json:"doc"`
@@ -294,6 +296,11 @@ func (r *Report) finish(verifDir string, chk *PropCheck, start time.Time, seed i
 	}
 	for _, n := range r.Notes {
 		fmt.Println("  note:", n)
+	}
+	if dumpObligs {
+		for _, o := range r.Obligs {
+			fmt.Printf("  | %-12s %s %s [%s]\n", o.Status, o.Rule, o.Key, o.Pos)
+		}
 	}
 	for _, l := range out {
 		fmt.Println(l)
